@@ -56,10 +56,15 @@ def _images(ctx):
         if ts == JPEGLSLossless and (rows < 2 or cols < 2):
             rows, cols = rows + 1, cols + 1
         ot = r.choice(['basic', 'extended', 'none'])
+        if idx == 1:
+            # always present: a bit-packed image whose frames hold more than 255 pixels and do not end on byte boundaries
+            # (frame numbers given as 8-bit numpy integers overflow in offset arithmetic only there)
+            bits, samples, signed, ts = 1, 1, False, ExplicitVRLittleEndian
+            rows, cols, nfr = r.choice([(17, 19), (13, 21), (16, 17)]) + (r.choice([3, 5, 7]),)
         # dimensions added later draw from their own stream so that the images of earlier runs stay the same
         r2 = ctx.rng('img2', idx)
         bs = bits
-        if bits in (8, 16) and ts != JPEGLSLossless and r2.random() < 0.3:
+        if bits in (8, 16) and ts != JPEGLSLossless and r2.random() < 0.45:
             bs = r2.choice([bits - 1, bits - 4, 5])          # BitsStored < BitsAllocated, values inside the stored range
         planar = 1 if (samples == 3 and ts in (ExplicitVRLittleEndian, ImplicitVRLittleEndian) and r2.random() < 0.4) else 0
         drop_nof = nfr == 1 and r2.random() < 0.5              # single-frame image WITHOUT NumberOfFrames
@@ -84,13 +89,26 @@ def _images(ctx):
         except Exception as e:  # noqa: BLE001
             ctx.note(f'generator could not encode image {idx}: {type(e).__name__}: {e}'[:200])
             continue
+        junk = False
         if bs != bits:
             ds.BitsStored, ds.HighBit = bs, bs - 1
+            if ts in (ExplicitVRLittleEndian, ImplicitVRLittleEndian) and r2.random() < 0.75:
+                # the unused high bits of the stored cells hold junk (overlays of old, vendor flags): every access path has
+                # to hand out the STORED value (pydicom masks / sign-extends from BitsStored)
+                junk = True
+                dt = {8: 'u1', 16: '<u2'}[bits]
+                cells = np.frombuffer(ds.PixelData, dtype=dt)[:fr.size].copy()
+                mask = (1 << bs) - 1
+                hi_bits = ctx.np_rng('junk', idx).integers(0, 1 << (bits - bs), size=cells.size, dtype=np.int64)
+                cells = ((cells.astype(np.int64) & mask) | (hi_bits << bs)).astype(dt)
+                data = cells.tobytes()
+                ds.PixelData = data + (b'\x00' if len(data) % 2 else b'')
+                ds['PixelData'].VR = 'OB' if bits <= 8 else 'OW'
         if drop_nof:
             del ds.NumberOfFrames
         yield {'idx': idx, 'bits': bits, 'samples': samples, 'frames': nfr, 'rows': rows, 'cols': cols,
                'signed': signed, 'ts': ts.name, 'ot': ot, 'bits_stored': bs, 'planar': planar,
-               'number_of_frames_attr': not drop_nof}, ds, fr
+               'number_of_frames_attr': not drop_nof, 'junk_above_bits_stored': junk}, ds, fr
 
 
 def _fetch(fn, *a, **k):
@@ -98,6 +116,19 @@ def _fetch(fn, *a, **k):
         return ('ok', fn(*a, **k))
     except Exception as e:  # noqa: BLE001
         return ('err', type(e).__name__)
+
+
+_NP_INTS = ('int8', 'uint8', 'int16', 'uint16', 'int32', 'uint32', 'int64', 'uint64', 'intp')
+
+
+def _spell(r, k):
+    """One accepted spelling of the integer k: a Python int (half of the time) or a numpy integer type that can hold it."""
+    if r.random() < 0.5:
+        return k, 'int'
+    fits = [t for t in _NP_INTS if np.iinfo(t).min <= k <= np.iinfo(t).max]
+    # the narrowest types are where arithmetic with the number wraps first: half of the numpy draws take one of them
+    t = r.choice(fits[:2]) if r.random() < 0.5 else r.choice(fits)
+    return getattr(np, t)(k), t
 
 
 def _err_kind(name):
@@ -155,13 +186,15 @@ def _check_image(ctx, d, ds, fr, reqs, pending):
         # force the "no cached pixel array" branch for the in-memory image too
         pass
     ks = list(range(-n - 2, n + 3))
+    spell_rng = ctx.rng('spelling', d['idx'])
     for name, im in imgs.items():
         for as_index in (False, True):
             for k in ks:
                 idx = k if as_index else k - 1
                 inrange = 0 <= idx < n
-                st, val = _fetch(im.get_stored_frame, k, as_index=as_index)
-                case = {'image': d, 'path': name, 'k': k, 'as_index': as_index}
+                kk, spelling = _spell(spell_rng, k)
+                st, val = _fetch(im.get_stored_frame, kk, as_index=as_index)
+                case = {'image': d, 'path': name, 'k': k, 'as_index': as_index, 'number_given_as': spelling}
                 nontriv = None
                 if inrange and st == 'ok' and val.min() != val.max():
                     nontriv = (d['bits'], (d['rows'] * d['cols']) % 8, n, name, d['ts'], idx)
@@ -169,7 +202,8 @@ def _check_image(ctx, d, ds, fr, reqs, pending):
                          bits=d['bits'], path=name, syntax=d['ts'], residue=(d['rows'] * d['cols']) % 8,
                          outcome=('ok' if st == 'ok' else val), inrange=inrange,
                          bits_stored=('full' if d.get('bits_stored', d['bits']) == d['bits'] else 'narrower'),
-                         planar=d.get('planar', 0), number_of_frames_attr=d.get('number_of_frames_attr', True))
+                         planar=d.get('planar', 0), number_of_frames_attr=d.get('number_of_frames_attr', True),
+                         number_given_as=spelling, junk_above_bits_stored=d.get('junk_above_bits_stored', False))
                 # ---- oracle
                 if inrange:
                     if st != 'ok':
@@ -191,7 +225,11 @@ def _check_image(ctx, d, ds, fr, reqs, pending):
                         fn = 'memFrameBytes' if name == 'memory' else 'lazyFrameBytes'
                         args = {'pd': pd, 'rows': d['rows'], 'cols': d['cols'], 'samples': d['samples'], 'bits': d['bits'],
                                 'n': n, 'pi': str(ds.PhotometricInterpretation), 'k': k, 'as_index': as_index}
-                        if st == 'ok':
+                        if st == 'ok' and d.get('junk_above_bits_stored'):
+                            # the model speaks about the stored bytes; the decoded values are masked, so compare the raw frame
+                            st3, rawf = _fetch(im.get_raw_frame, kk, as_index=as_index)
+                            impl = ('ok', list(rawf)) if st3 == 'ok' else ('err', _err_kind(rawf))
+                        elif st == 'ok':
                             a = np.asarray(val)
                             dt = {8: 'u1', 16: '<u2', 32: '<u4'}[d['bits']]
                             if d['signed']:
@@ -229,7 +267,11 @@ def _check_image(ctx, d, ds, fr, reqs, pending):
                                      'batch with an empty / out-of-range request was answered', site='get_stored_frames')
         for as_index in (False, True):
             nums = sel if as_index else [s + 1 for s in sel]
+            if r.random() < 0.5:
+                # the batch as a numpy array of a narrow integer type (its elements are numpy scalars)
+                nums = np.asarray(nums, dtype=r.choice([np.uint8, np.int8, np.uint16, np.int16, np.int32, np.int64]))
             st, val = _fetch(im.get_stored_frames, nums, as_indices=as_index)
+            nums = [int(x) for x in nums]
             ctx.case(path=name + '/batch')
             if st != 'ok':
                 ctx.fail({'image': d, 'path': name, 'batch': nums, 'as_index': as_index}, f'batch refused: {val}', site='get_stored_frames')
@@ -330,8 +372,9 @@ def _check_image(ctx, d, ds, fr, reqs, pending):
     st, rd = _fetch(hd.io.ImageFileReader, DicomBytesIO(blob))
     if st == 'ok':
         with rd:
+            rs = ctx.rng('reader-spelling', d['idx'])
             for i in range(-2, n + 2):
-                st2, val = _fetch(rd.read_frame, i, correct_color=False)
+                st2, val = _fetch(rd.read_frame, _spell(rs, i)[0], correct_color=False)
                 ctx.case(path='reader', inrange=0 <= i < n)
                 case = {'image': d, 'path': 'reader', 'i': i}
                 if 0 <= i < n:
@@ -345,8 +388,9 @@ def _check_image(ctx, d, ds, fr, reqs, pending):
             ro = ctx.rng('reader-order', d['idx'])
             order = [ro.randrange(-1, n + 1) for _ in range(min(2 * n + 2, 14))]
             for i in order:
-                st2, val = _fetch(rd.read_frame, i, correct_color=False)
-                ctx.case(path='reader/any-order', inrange=0 <= i < n)
+                ii, _sp = _spell(ro, i)
+                st2, val = _fetch(rd.read_frame, ii, correct_color=False)
+                ctx.case(path='reader/any-order', inrange=0 <= i < n, number_given_as=_sp)
                 if 0 <= i < n and (st2 != 'ok' or not np.array_equal(np.asarray(val).astype(np.int64), ref[i].astype(np.int64))):
                     ctx.fail({'image': d, 'path': 'reader', 'i': i, 'history': order}, 'reader frame differs from pydicom when frames are read in this order',
                              site='read_frame/any-order')
